@@ -366,18 +366,15 @@ var _ = fmt.Sprintf
 // same package all of whose call sites lie inside the region (closure, two rounds).
 // Rules anchored in a named function search the whole region, so that extracting a
 // few lines into a helper (or splitting a function) does not hide the construct.
-var regionMemo = map[*Prog]map[string][]*FuncInfo{}
-
 func (p *Prog) Region(key string) []*FuncInfo {
-	if m := regionMemo[p]; m != nil {
-		if r, ok := m[key]; ok {
-			return r
-		}
-	} else {
-		regionMemo[p] = map[string][]*FuncInfo{}
+	if p.regionMemo == nil {
+		p.regionMemo = map[string][]*FuncInfo{}
+	}
+	if r, ok := p.regionMemo[key]; ok {
+		return r
 	}
 	r := p.region0(key)
-	regionMemo[p][key] = r
+	p.regionMemo[key] = r
 	return r
 }
 
